@@ -17,6 +17,7 @@ import (
 	"github.com/omec-project/upf-epc/pfcpiface"
 
 	"verif/harness/internal/core"
+	"verif/harness/internal/e2e"
 	"verif/harness/internal/pfcpx"
 )
 
@@ -107,13 +108,13 @@ func c06Worker(args []string) error {
 			if err == nil {
 				l.IP = pfcpx.V32(uint64(pfcpx.IP4(ip)))
 			} else {
-				sum.Refusals++
+				atomic.AddInt64(&sum.Refusals, 1)
 			}
 		} else {
 			l.Ok = p.DeallocIP(s) == nil
 		}
 
-		sum.Calls++
+		atomic.AddInt64(&sum.Calls, 1) // (called from concurrent goroutines in mode conc)
 
 		return l
 	}
@@ -359,6 +360,17 @@ func C06(c *core.Ctx) {
 		jobs = append(jobs, job{"conc", i, nconc})
 	}
 
+	// the same concurrent histories under the race detector (shard numbers beyond nconc: other seeds); a report is an
+	// observation no action of the trace specification consumes
+	nrace := 2
+	if c.Thorough() {
+		nrace = 4
+	}
+
+	for i := 0; i < nrace; i++ {
+		jobs = append(jobs, job{"conc-race", nconc + i, nconc + nrace})
+	}
+
 	sem := make(chan struct{}, 14)
 
 	for ji, j := range jobs {
@@ -372,7 +384,26 @@ func C06(c *core.Ctx) {
 			defer func() { <-sem }()
 
 			trace := filepath.Join(c.Scratch, fmt.Sprintf("c06-%s-%d.ndjson", j.mode, j.shard))
-			wr := c.RunWorker(20*time.Minute, "c06", trace, j.mode, c.Tier, strconv.FormatInt(c.Seed, 10), strconv.Itoa(j.shard), strconv.Itoa(j.nshard))
+			var wr *core.WorkerResult
+
+			raceNote := ""
+
+			if j.mode == "conc-race" {
+				j.mode = "conc"
+				wr = c.RunWorkerBin(filepath.Join(c.BinDir, "vcheck-race"), []string{"GORACE=halt_on_error=1 exitcode=66"}, 20*time.Minute, "c06", trace, "conc", c.Tier,
+					strconv.FormatInt(c.Seed, 10), strconv.Itoa(j.shard), strconv.Itoa(j.nshard))
+
+				if rs := e2e.RaceReports(wr.Stderr); len(rs) > 0 {
+					// the detector stopped the worker at its first report
+					// (the worker was stopped in the middle of its buffered output: the trace consists of the report alone)
+					_ = os.WriteFile(trace, []byte(fmt.Sprintf("{\"op\":\"race\",\"pair\":%q}\n", rs[0])), 0o644)
+
+					raceNote = "data race reported by the race detector: " + rs[0]
+					wr.ExitCode = 0
+				}
+			} else {
+				wr = c.RunWorker(20*time.Minute, "c06", trace, j.mode, c.Tier, strconv.FormatInt(c.Seed, 10), strconv.Itoa(j.shard), strconv.Itoa(j.nshard))
+			}
 
 			if wr.Panic != "" && wr.Site != "unknown" {
 				f, _ := os.OpenFile(trace, os.O_APPEND|os.O_WRONLY|os.O_CREATE, 0o644)
@@ -410,6 +441,9 @@ func C06(c *core.Ctx) {
 
 				if what == "" {
 					what = "no linearisation explains the recorded results (or the worker died)"
+					if raceNote != "" {
+						what = raceNote
+					}
 				}
 
 				dir := c.SaveReplay(fmt.Sprintf("%s-%d", j.mode, j.shard), map[string]string{"tlc.out": tr.OutputPath, "trace.ndjson": trace},
